@@ -264,6 +264,7 @@ def plan(tier, seed):
         configs.append(("H1x3", "line", 1, None))
         configs.append(("T1", "switch", 2, None))
         configs.append(("T3", "switch", 2, None))
+        configs.append(("T2", "switch", 2, None))
     items = []
     meta = {"configs": [], "exhaustive": True}
     for h, gran, bound, sl in configs:
